@@ -10,7 +10,9 @@ FOREIGN = ["int", "none", "str", "other_family_file", "list", "elem"]
 def build(fam, seq, as_file, noise=0):
     F = families.get(fam)
     T = families.elem_classes(fam)
-    elems = [T[c](data=[d]) for c, d in seq]
+    # the abstract data values 1, 2, 3 are carried by 1, 0.3 and 0.1 + 0.2 (= 0.30000000000000004): equality is exact
+    carrier = {1: 1, 2: 0.3, 3: 0.1 + 0.2}
+    elems = [T[c](data=[carrier.get(d, d)]) for c, d in seq]
     c = F["Data"](elems[0])
     for e in elems[1:]:
         c.append(e)
